@@ -173,6 +173,21 @@ Fixpoint runes_fuel (fuel : nat) (s : string) : list string :=
   end.
 Definition runes (s : string) : list string := runes_fuel (String.length s) s.
 
+(* Str#_incBy: the last character moved by k code points. Modelled for ASCII results only (None otherwise). *)
+Definition str_inc_last (s : string) (k : Z) : option string :=
+  match String.length s with
+  | O => None
+  | S n =>
+      match String.get n s with
+      | Some c =>
+          let b := Z.of_nat (nat_of_ascii c) in
+          if ((b <? 128) && (0 <=? b + k) && (b + k <? 128))%Z
+          then Some (String.substring 0 n s ++ String (ascii_of_nat (Z.to_nat (b + k))) EmptyString)%string
+          else None
+      | None => None
+      end
+  end.
+
 Fixpoint repeat_str (n : nat) (s : string) : string :=
   match n with O => "" | S k => s ++ repeat_str k s end.
 
@@ -990,6 +1005,28 @@ Definition call_builtin (env : nat) (b : bfn) (args : list val) (kwargs : kwargs
           end
       | _ => tyerr "Str#at requires at least 2 args"
       end
+  | B_Str_incBy =>
+      match args with
+      | self :: nv :: _ =>
+          st <- get_st ;;
+          match as_str W st self with
+          | None => tyerr "\1 must be str"
+          | Some (_, x) =>
+              match as_int W st nv with
+              | None => tyerr "\2 must be int"
+              | Some (_, k) =>
+                  match x with
+                  | EmptyString => raise "ValueErr" "empty str cannot be incremented"
+                  | _ =>
+                      match str_inc_last x k with
+                      | Some y => ret (VStr (match proto_of W st self with Some p => p | None => wkv W "Str" end) y)
+                      | None => unsup "Str#_incBy beyond ASCII"
+                      end
+                  end
+              end
+          end
+      | _ => tyerr "Str#_incBy requires at least 2 args"
+      end
   | B_Str_new =>
       match args with
       | proto :: v :: _ =>
@@ -1305,7 +1342,9 @@ Definition call_builtin (env : nat) (b : bfn) (args : list val) (kwargs : kwargs
             match a, b0, c with
             | VInt _ x, VInt _ y, VInt _ z => alloc_biter (BIRange x y z)
             | VInt _ x, VInt _ y, VNil _ => alloc_biter (BIRange x y 1)
-            | _, _, _ => unsup "non-int range iteration"
+            | _, _, VInt _ z => alloc_biter (BIGen a b0 z)
+            | _, _, VNil _ => alloc_biter (BIGen a b0 1)
+            | _, _, _ => unsup "non-int range step"
             end
           end
       end
@@ -1411,6 +1450,21 @@ Definition call_builtin (env : nat) (b : bfn) (args : list val) (kwargs : kwargs
               if (if (step >? 0)%Z then (cur >=? stop)%Z else (cur <=? stop)%Z)
               then raise "StopIterErr" "iter stopped"
               else _ <- set_biter id (BIRange (add64 cur step) stop step) ;; ret (vInt cur)
+          | Some (BIGen cur stop step) =>
+              (* rangeIter: `cur <=> stop` decides (must be an int), then `cur._incBy(step)` is the next value *)
+              c <- callprop env cur "<=>" [stop] [] ;;
+              st1 <- get_st ;;
+              match as_int W st1 c with
+              | None => raise "ValueErr" "<=> returned non-int value"
+              | Some (_, r) =>
+                  if (if (step >? 0)%Z then negb (r =? -1)%Z else negb (r =? 1)%Z)
+                  then raise "StopIterErr" "iter stopped"
+                  else r1 <- catch (callprop env cur "_incBy" [vInt step] []) ;;
+                       match r1 with
+                       | inl nxt => _ <- set_biter id (BIGen nxt stop step) ;; ret cur
+                       | inr _ => unsup "range iteration: _incBy failed"   (* the implementation keeps the error as the next value *)
+                       end
+              end
           | None => unsup "dangling builtin iter"
           end
       | v :: _ => s <- insp v ;; tyerr ("`" ++ s ++ "` is not callable.")
